@@ -9,7 +9,7 @@
     check for the binary64 abstraction). *)
 From Coq Require Import ZArith QArith Qround Qabs List Bool Lia.
 From OG Require Import Base.Result Base.QZ Model.Roi Model.Overlap
-     Proofs.RoiPointsProofs Proofs.OverlapProofs.
+     Proofs.RoiPointsProofs Proofs.OverlapProofs Proofs.OverlapOrdered.
 Import ListNotations.
 Open Scope Q_scope.
 
@@ -80,6 +80,17 @@ Theorem C03_same_crs_sampled_within :
    0 <= fst (snd (roi_dst r)) <= snd ds /\ 0 <= snd (snd (roi_dst r)) <= snd ds)%Z.
 Proof. exact sampled_within. Qed.
 Print Assumptions C03_same_crs_sampled_within.
+
+(** ... and are well-formed slices: start <= stop on both axes of both regions (an empty
+    region is [k:k], never a reversed pair that numpy would read as a wrap-around) *)
+Theorem C03_same_crs_sampled_ordered :
+  forall c ss ds A F ttol stol padding align r,
+  reproject_linear c ss ds A F ttol stol padding align = Ok r -> paste_ok r = false ->
+  (0 <= fst ss)%Z -> (0 <= snd ss)%Z -> (0 <= fst ds)%Z -> (0 <= snd ds)%Z ->
+  (0 <= pad_default padding)%Z -> align_ok (norm_align align) ->
+  roi_ordered (roi_src r) /\ roi_ordered (roi_dst r).
+Proof. exact sampled_ordered. Qed.
+Print Assumptions C03_same_crs_sampled_ordered.
 
 (** separated by more than the padding margin (whatever the alignment: the source region is aligned only
     when the un-aligned padded envelope meets the image) -> source region empty, destination 0:0 *)
@@ -224,6 +235,15 @@ Theorem C03_cross_crs_within :
    0 <= fst (snd (roi_dst r)) <= snd ds /\ 0 <= snd (snd (roi_dst r)) <= snd ds)%Z.
 Proof. exact nonlinear_within. Qed.
 Print Assumptions C03_cross_crs_within.
+
+Theorem C03_cross_crs_ordered :
+  forall c back fwd scale_at ss ds padding align r,
+  reproject_nonlinear c back fwd scale_at ss ds padding align = Ok r ->
+  (0 <= fst ss)%Z -> (0 <= snd ss)%Z -> (0 <= fst ds)%Z -> (0 <= snd ds)%Z ->
+  (0 <= pad_default padding)%Z -> align_ok (norm_align align) ->
+  roi_ordered (roi_src r) /\ roi_ordered (roi_dst r).
+Proof. exact nonlinear_ordered. Qed.
+Print Assumptions C03_cross_crs_ordered.
 
 Theorem C03_cross_crs_separated_empty :
   forall c back fwd scale_at ss ds padding align r,
